@@ -81,7 +81,14 @@ static void ob_add(const char *s, size_t n) {
     ob[ob_len] = 0;
 }
 
-void vp_out_begin(void) { ob_len = 0; ob_items = 0; ob_add("[", 1); }
+vp_txrec vp_txs[VP_MAX_TXS];
+int      vp_ntx = 0;
+
+void vp_out_begin(void) {
+    ob_len = 0; ob_items = 0; ob_add("[", 1);
+    for (int i = 0; i < vp_ntx; i++) { free(vp_txs[i].b); vp_txs[i].b = NULL; }
+    vp_ntx = 0;
+}
 const char *vp_out_json(void) {
     static char *copy = NULL;
     free(copy);
@@ -187,6 +194,13 @@ int lltd_port_send_frame(void *iface_ctx, const void *frame, size_t frame_len) {
     }
     ob_add("]}", 2);
     ob_items++;
+    if (frame && vp_record_bytes && rc == 0 && vp_ntx < VP_MAX_TXS) {
+        vp_txs[vp_ntx].b = malloc(frame_len ? frame_len : 1);
+        memcpy(vp_txs[vp_ntx].b, frame, frame_len);
+        vp_txs[vp_ntx].n = frame_len;
+        vp_txs[vp_ntx].item = ob_items;
+        vp_ntx++;
+    }
     return rc;
 }
 
